@@ -33,10 +33,18 @@ pub struct FaultReader<'a> {
     fail_at: u64,
 }
 
+thread_local! {
+    /// number of fallible reader operations performed so far in the current fault-injection pass
+    static OPS: Cell<u64> = Cell::new(0);
+    /// when recording: (label, OPS) at the start of every `Ctl::drive` call
+    static SITES: std::cell::RefCell<Option<Vec<(String, u64)>>> = std::cell::RefCell::new(None);
+}
+
 impl<'a> FaultReader<'a> {
     fn tick(&self) -> gimli::Result<()> {
         let c = self.ctr.get();
         self.ctr.set(c + 1);
+        OPS.with(|o| o.set(c + 1));
         if c >= self.fail_at {
             Err(gimli::Error::UnexpectedEof(self.inner.offset_id()))
         } else {
@@ -236,6 +244,11 @@ impl Ctl {
         mut next: impl FnMut() -> Result<Option<T>, E>,
         mut each: impl FnMut(&mut Ctl, T),
     ) {
+        SITES.with(|st| {
+            if let Some(v) = st.borrow_mut().as_mut() {
+                v.push((what.to_string(), OPS.with(|o| o.get())));
+            }
+        });
         let mut errs = 0u64;
         let mut first_err = String::new();
         let mut local = 0u64;
@@ -879,6 +892,7 @@ fn run_family(fam: &str, secs: &Sections, rng: &mut Rng, fail_at: Option<u64>) -
             }
         }
         Some(k) => {
+            OPS.with(|o| o.set(0));
             let ctr = Rc::new(Cell::new(0u64));
             let s = |name: &str| FaultReader { inner: EndianSlice::new(get(name), RunTimeEndian::Little), ctr: ctr.clone(), fail_at: k };
             if fam == "dwarf" || fam == "all" {
@@ -922,7 +936,13 @@ pub fn run(t: &[&str]) -> String {
             let mut rng = Rng(u(t[4]));
             let nmut = u(t[5]);
             let trunc: i64 = t[6].parse().unwrap_or(-1);
-            let fail_at: i64 = t[7].parse().unwrap_or(-1);
+            // fail_at: -1 none | k >= 0 the k-th reader operation | s<j>+<d>: d operations after the start of the
+            // j-th iterator drive of a fault-free counting pass (distinct iterator kinds first, then all drives)
+            let site: Option<(usize, u64)> = t[7].strip_prefix('s').and_then(|r| {
+                let (j, d) = r.split_once('+')?;
+                Some((j.parse().ok()?, d.parse().ok()?))
+            });
+            let fail_at: i64 = if site.is_some() { -1 } else { t[7].parse().unwrap_or(-1) };
             // choose the section to damage
             let mut names: Vec<String> = secs.keys().filter(|k| *k != "ADDRS").cloned().collect();
             names.sort();
@@ -943,6 +963,24 @@ pub fn run(t: &[&str]) -> String {
                     let k = (trunc as usize).min(buf.len());
                     buf.truncate(k);
                 }
+            }
+            if let Some((j, d)) = site {
+                // pass 1: count operations with a reader that never fails, recording where every drive starts
+                SITES.with(|st| *st.borrow_mut() = Some(Vec::new()));
+                let mut rng1 = Rng(rng.0);
+                let first = run_family(fam, &secs, &mut rng1, Some(u64::MAX));
+                let all = SITES.with(|st| st.borrow_mut().take()).unwrap_or_default();
+                if first != "fin" {
+                    return first;
+                }
+                let mut seen = std::collections::HashSet::new();
+                let mut order: Vec<u64> = all.iter().filter(|(l, _)| seen.insert(l.clone())).map(|(_, o)| *o).collect();
+                order.extend(all.iter().map(|(_, o)| *o));
+                if order.is_empty() {
+                    return "fin".into();
+                }
+                let k = order[j % order.len()] + d;
+                return run_family(fam, &secs, &mut rng, Some(k));
             }
             run_family(fam, &secs, &mut rng, if fail_at >= 0 { Some(fail_at as u64) } else { None })
         }
